@@ -1,4 +1,6 @@
 """C14 - a component's state is determined by the states of its tasks."""
+from .. import director as D
+from .. import gen as G
 from . import common as C
 from .common import NONE, READY, WORKING, FINISHED, SNAME, Static
 
@@ -14,7 +16,7 @@ ASSUMPTIONS = ["models <= 8 tasks, <= 4 components"]
 LEVEL_TEXT = "Seeded exploration; component/task state relation evaluated on the live state at every phase of every step and on the state logs."
 LEVEL_NOTE = "Trusted: harness observers; sampling evidence only."
 PROBES = ["component_without_task", "component_multi_task", "component_mixed_progress", "component_finished",
-          "component_working_hidden_by_absence"]
+          "component_working_hidden_by_absence", "remove_runs", "reporting_calls_checked"]
 
 
 def budget(tier):
@@ -29,10 +31,19 @@ def gen(rng, tier):
         focus["nested"] = True
     if rng.random() < 0.4:
         focus["facilities"] = True
-    return C.gen_edit(rng, C.maybe_history(rng, C.forward_spec(rng, tier, focus), 0.3))
+    spec = C.gen_edit(rng, C.maybe_history(rng, C.forward_spec(rng, tier, focus), 0.3))
+    if spec.get("history") is None and not spec.get("edit") and rng.random() < 0.2:
+        if not spec["cfg"].get("absence"):
+            spec["cfg"]["absence"] = G.gen_absence(rng, 16, rng.randint(2, 6))
+        spec["remove"] = True  # the absence steps are deleted from the finished logs: the relation must still hold entry by entry
+    return spec
 
 
 def extra_candidates(spec):
+    if spec.get("remove"):
+        c = dict(spec)
+        c.pop("remove")
+        yield c
     for c in C.history_candidates(spec):
         yield c
     for c in C.edit_candidates(spec):
@@ -98,9 +109,11 @@ def check_trace(res, tr):
     return any(changes[c] >= 2 and len(st.comp_tasks[c]) >= 2 for c in st.comp_order)
 
 
-def check_edited_logs(res, tr, marks):
-    """After absence steps were inserted into the finished logs the relation must still hold entry by entry."""
+def check_edited_logs(res, tr, marks, op="insert_absence"):
+    """After absence steps were inserted into (deleted from) the finished logs the relation must still hold entry by entry."""
     st = Static(tr.model)
+    if op != "insert_absence":
+        tr.edit = "-"
     for c in tr.ix.comps:
         clog = [int(x) for x in c.state_record_list]
         for i in range(len(clog)):
@@ -111,16 +124,41 @@ def check_edited_logs(res, tr, marks):
                 continue
             allfin = all(x == FINISHED for x in tl)
             if allfin != (clog[i] == FINISHED):
-                res.add("edit", "C14.after_insert_absence.finished_iff_all_tasks_finished",
-                        "after insert_absence_time_list(%s): at log index %d (%s) component %s is logged %s, its tasks %s"
-                        % (tr.edit, i, "inserted step" if i < len(marks) and marks[i] else "original step", c.ID,
+                res.add("edit", "C14.after_%s.finished_iff_all_tasks_finished" % op,
+                        "after %s_time_list(%s): at log index %d (%s) component %s is logged %s, its tasks %s"
+                        % (op, tr.edit, i, "inserted step" if i < len(marks) and marks[i] else "original step", c.ID,
                            SNAME.get(clog[i], clog[i]), [SNAME.get(x, x) for x in tl]), i)
                 return
             if any(x in (READY, WORKING) for x in tl) and clog[i] == NONE:
-                res.add("edit", "C14.after_insert_absence.component_NONE_with_active_task",
-                        "after insert_absence_time_list(%s): at log index %d component %s is logged NONE, its tasks %s"
-                        % (tr.edit, i, c.ID, [SNAME.get(x, x) for x in tl]), i)
+                res.add("edit", "C14.after_%s.component_NONE_with_active_task" % op,
+                        "after %s_time_list(%s): at log index %d component %s is logged NONE, its tasks %s"
+                        % (op, tr.edit, i, c.ID, [SNAME.get(x, x) for x in tl]), i)
                 return
+            if op == "remove_absence" and any(x == WORKING for x in tl) and clog[i] != WORKING:
+                res.add("edit", "C14.after_remove_absence.task_working_component_not",
+                        "after remove_absence_time_list(): at log index %d component %s is logged %s although a task is logged WORKING (%s)"
+                        % (i, c.ID, SNAME.get(clog[i], clog[i]), [SNAME.get(x, x) for x in tl]), i)
+                return
+
+
+def check_reporting_is_read_only(res, tr):
+    """Asking for chart data must not change what the logs say (a component that 'returns to NONE' in its log after a report
+    was requested has left the relation as surely as one that does so in a step)."""
+    p = tr.project
+    comps = list(p.product.component_list)
+    before = [([int(x) for x in c.state_record_list], list(c.placed_workplace_id_record)) for c in comps]
+    for c in comps:
+        D.call(lambda: c.get_time_list_for_gannt_chart())
+        D.call(lambda: c.create_data_for_gantt_plotly(p.init_datetime, p.unit_timedelta))
+    D.call(lambda: p.product.create_data_for_gantt_plotly(p.init_datetime, p.unit_timedelta))
+    res.count("reporting_calls_checked")
+    for c, b in zip(comps, before):
+        a = ([int(x) for x in c.state_record_list], list(c.placed_workplace_id_record))
+        if a != b:
+            res.add("report", "C14.reporting_call_changed_component_log",
+                    "after the chart helpers were called the log of component %s reads %s (%d entries), before %s (%d entries)"
+                    % (c.ID, [SNAME.get(x, x) for x in a[0][-4:]], len(a[0]), [SNAME.get(x, x) for x in b[0][-4:]], len(b[0])), None)
+            break
 
 
 def run(spec):
@@ -133,4 +171,11 @@ def run(spec):
         res.count("edit_runs")
         if o.ok:
             check_edited_logs(res, tr, marks)
+    if spec.get("remove") and tr.out.ok and not spec.get("edit") and getattr(tr, "history", None) is None:
+        res.count("remove_runs")
+        o = D.call(lambda: tr.project.remove_absence_time_list())
+        if o.ok:
+            check_edited_logs(res, tr, [], op="remove_absence")
+    if tr.out.ok:
+        check_reporting_is_read_only(res, tr)
     return C.finish(res, tr)
